@@ -286,7 +286,7 @@ out = []
 with contextlib.redirect_stdout(io.StringIO()):
     for c in hist:
         out.append(call(c))
-print(json.dumps(out))
+print(json.dumps(out, default=lambda o: 'OBJECT:' + type(o).__name__))      # an answer that is not True/False is reported as such
 '''
 
 
@@ -329,9 +329,32 @@ def replay(rep):
 
 
 # ---------------------------------------------------------------------------- ground: bundled files, histories
+def read_frame(run):
+    """the per-call contract lets each helper depend on its arguments, the files, and ITS OWN cache (ghost invariant: an entry
+    is the uncached answer); reading any other module-level container that calls modify would make the answer depend on the
+    history in a way the contract does not cover"""
+    import ast, inspect, textwrap
+    from collections import OrderedDict
+    u = real_module('athlib.utils')
+    own = {'schema_valid': {'_schema_valid_cache'}, 'valid_against_schema': {'_valid_against_schema_cache'}}
+    for fn, allowed in own.items():
+        f = getattr(u, fn)
+        tree = ast.parse(textwrap.dedent(inspect.getsource(f)))
+        localnames = {n.id for n in ast.walk(tree) if isinstance(n, ast.Name) and isinstance(n.ctx, ast.Store)} | {a.arg for a in tree.body[0].args.args}
+        others = sorted({n.id for n in ast.walk(tree) if isinstance(n, ast.Name) and isinstance(n.ctx, ast.Load) and n.id not in localnames
+                         and isinstance(f.__globals__.get(n.id), (dict, list, set, OrderedDict)) and n.id not in allowed})
+        name = 'frame/%s-reads-no-shared-container-but-its-own-cache' % fn
+        run.record(name, 'frame', 'refuted' if others else 'proved', 'frame-analysis', 0.0, 'frames')
+        if others:
+            run.violation(name, dict(call='%s reads %s' % (fn, ', '.join(others)), observed='reads module-level container(s) %s' % others,
+                                     required='its own cache only', fname=fn, model={}, history=[], solver='frame analysis'), False)
+
+
 def bundled():
     sj = sorted(os.listdir(TREE + '/sample-jsons'))
     schemas = sorted(f for f in os.listdir(TREE + '/json') if f.endswith('.json'))
+    if os.path.isdir(TREE + '/json/definitions'):
+        schemas += sorted('definitions/' + f for f in os.listdir(TREE + '/json/definitions') if f.endswith('.json'))
     pairs = []
     for s in sj:
         if not s.endswith('.json'):
@@ -358,7 +381,8 @@ def ground(run, tier, seed):
         run.record('bundled/%s-%s' % (d, 'validates' if ok else 'is-rejected'), 'ground', 'proved' if good else 'refuted', 'ground-evaluation', 0.0, 'bundled')
         if not good:
             run.violation('bundled/%s' % d, dict(call='valid_against_schema(%r,%r)' % (d, s), observed=r, required=['ret', ok], history=[calls[n - 1]], fname='valid_against_schema', model={}), True)
-    sc = [['schema_valid', 'json/' + s, 'Draft4Validator', False] for s in schemas]
+    # (the property does not say that every file under json/definitions/ is a valid schema by itself: top level only)
+    sc = [['schema_valid', 'json/' + s, 'Draft4Validator', False] for s in schemas if '/' not in s]
     res = run_history(sc)
     for c_, r in zip(sc, res):
         good = r == ['ret', True]
@@ -389,6 +413,21 @@ def ground(run, tier, seed):
         twin = list(c_)
         twin[-1] = not c_[-1]
         hists.append([twin, c_])
+    # cross-function pairs: a schema check followed by (and following) a validation against the same schema, incl. the
+    # definitions/ schemas (one of which is not a valid schema of its own draft)
+    docs_of = {}
+    for d, s, ok in pairs:
+        docs_of.setdefault(s, d)
+    some_doc = pairs[0][0]
+    for sname in schemas:
+        sfile = 'json/' + sname
+        d = docs_of.get(sfile, some_doc)
+        for v in ('Draft3Validator', 'Draft4Validator'):
+            a, b = ['schema_valid', sfile, v, False], ['valid_against_schema', d, sfile, False]
+            hists.append([a, b])
+            hists.append([b, a])
+            if v == 'Draft4Validator':
+                hists.append([a, ['valid_against_schema', d, sfile, True]])
     used = {}
     for h in hists:
         for c_ in h:
@@ -461,5 +500,6 @@ def main(tier, seed):
             continue
         run.add_function(res['fn'])
         U.absorb(run, res, on_refuted(res))
+    read_frame(run)
     ground(run, tier, seed)
     return run.finish()
